@@ -61,6 +61,8 @@ def main():
             res[f"check_{tier}"]["replays"] = replays[:8]
     finally:
         sh("git -C /repo checkout -- .")
+    # evidence files must come from the unchanged tree: rewrite them now
+    sh(f"/venv/bin/python harness/vcheck.py {pid} quick", cwd=VERIF, env=dict(os.environ, VERIF_SEED="0"))
     dst = VERIF / "seeded" / sid
     dst.mkdir(parents=True, exist_ok=True)
     shutil.copy(patch, dst / "patch.diff")
